@@ -250,7 +250,77 @@ def task_grid(args):
     return res
 
 
+LAW_INTS = [-9223372036854775807, -1000003, -100, -17, -9, -8, -7, -6, -5, -4, -3, -2, -1, 0, 1, 2, 3, 4, 5, 6, 7, 8, 9, 17, 100, 1000003, 9223372036854775807]
+
+
+def law_text(a, b, route):
+    A = str(a) if a >= 0 else "(0 - %d)" % -a
+    B = str(b) if b >= 0 else "(0 - %d)" % -b
+    if route == "direct":
+        return "let a = %s;\nlet b = %s;\nlet q = a / b;\nlet r = a %%%% b;\nlet back = q * b + r;\n" % (A, B)
+    if route == "func":
+        return ("let dm = func (a, b) => {q = a / b, r = a %%%% b};\nlet a = %s;\nlet b = %s;\nlet qr = dm(a, b);\nlet q = qr.q;\nlet r = qr.r;\n"
+                "let back = q * b + r;\n" % (A, B))
+    return ("let a = %s;\nlet b = %s;\nlet q = map(func (x) => x / b, [a]).0;\nlet r = reduce(func (acc, x) => x %%%% b, 0, [a]);\n"
+            "let back = q * b + r;\n" % (A, B))
+
+
+def judge_law(probe, a, b, route, res):
+    """The reference names `/` (integer division on ints) and `%%` (modulus) and is silent on rounding with negative operands, so
+    the reference interpreter gives no verdict on the values there.  Whatever the rounding, the two belong together: the
+    modulus is what the division leaves over.  q = a / b, r = a %% b  =>  q * b + r == a  and  |r| < |b|."""
+    text = law_text(a, b, route)
+    rr = probe.safe_call({"op": "eval", "text": text, "strict": True, "reuse_max": 50}, timeout=20.0)
+    res.case(text, nontrivial=True)
+    res.count("law:div-mod:" + route)
+    if "panic" in rr or "crash" in rr or "hang" in rr:
+        res.count("outcome:crash-left-to-C04")
+        return
+    if not rr.get("ok"):
+        if b == 0:
+            res.count("law:div-mod:zero-divisor-fails")
+        else:
+            res.violation(["law", "div-mod", "fails"], {"law_text": text, "a": a, "b": b, "route": route}, {"err": rr.get("err", "")[:200]})
+        return
+    got = dict((k, v) for k, v in rr["val"]["T"])
+    if b == 0:
+        res.violation(["law", "div-mod", "zero-divisor-succeeds"], {"law_text": text, "a": a, "b": b, "route": route}, {"q": got.get("q"), "r": got.get("r")})
+        return
+    q, r_, back = got.get("q"), got.get("r"), got.get("back")
+    ints = all(isinstance(x, dict) and "i" in x for x in (q, r_, back))
+    if not ints:
+        res.violation(["law", "div-mod", "not-an-int"], {"law_text": text, "a": a, "b": b, "route": route}, {"q": q, "r": r_, "back": back})
+        return
+    qi, ri, bi = int(q["i"]), int(r_["i"]), int(back["i"])
+    if bi != a or abs(ri) >= abs(b) or qi * b + ri != a:
+        res.violation(["law", "div-mod", "quotient-and-modulus-do-not-belong-together", "negative-dividend" if a < 0 else "non-negative-dividend",
+                       "negative-divisor" if b < 0 else "positive-divisor"], {"law_text": text, "a": a, "b": b, "route": route}, {"q": qi, "r": ri, "q*b+r": bi})
+        return
+    res.count("law:div-mod:holds:%s%s" % ("neg" if a < 0 else "nonneg", "/neg" if b < 0 else "/pos"))
+
+
+def task_law(args):
+    idx, nshards = args
+    res = core.Result()
+    probe = core.Probe()
+    n = 0
+    for a in LAW_INTS:
+        for b in LAW_INTS:
+            for route in ("direct", "func", "callback"):
+                if abs(a) > 2 ** 62 and abs(b) == 1 and a < 0 and b < 0:
+                    continue
+                if route != "direct" and (abs(a) > 100 or abs(b) > 100):
+                    continue
+                n += 1
+                if n % nshards == idx:
+                    judge_law(probe, a, b, route, res)
+    probe.stop()
+    return res
+
+
 def dispatch(t):
+    if t[0] == "law":
+        return task_law(t[1])
     return task_grid(t[1]) if t[0] == "grid" else task(t)
 
 
@@ -259,7 +329,7 @@ def run(tier, seed, t0):
     depth = core.tier_pick(tier, 4, 6)
     nst = core.tier_pick(tier, 8, 12)
     shards = 64 if tier == "quick" else 256
-    tasks = [(seed, i, n // shards, depth, nst) for i in range(shards)] + [("grid", (i, 16)) for i in range(16)]
+    tasks = [(seed, i, n // shards, depth, nst) for i in range(shards)] + [("grid", (i, 16)) for i in range(16)] + [("law", (i, 8)) for i in range(8)]
     res = core.run_parallel(dispatch, tasks)
     return core.finish("C01", tier, seed, res, RULE, t0, replay_known=replay_known,
                        assumptions=["vf/refint.py is my reading of docsite/site/content/reference/*.md; rules the "
@@ -270,6 +340,13 @@ def run(tier, seed, t0):
 def replay_witness(w):
     import ast
     probe = core.Probe()
+    if "law_text" in w:
+        res = core.Result()
+        try:
+            judge_law(probe, w["a"], w["b"], w["route"], res)
+        finally:
+            probe.stop()
+        return ("violated" if res.violations else "held"), (res.violations[0] if res.violations else {}), []
     try:
         stmts = ast.literal_eval(w["ast_repr"])
         v, d, text = judge_program(probe, stmts, fresh=True)
